@@ -75,7 +75,7 @@ class Ctx:
         self.scalars[name] = (v, ctype)
         return v
 
-    def array(self, name, ctype, cap, const=False, values=None):
+    def array(self, name, ctype, cap, const=False, values=None, expr=None):
         """values: optional python list -> concrete contents (concrete mode)"""
         kind, bits, signed = kspec.CT[ctype]
         k = ('f', bits) if kind == 'f' else ('i', bits)
@@ -87,6 +87,8 @@ class Ctx:
             arr = z3.K(z3.BitVecSort(64), zero)
             for i, x in enumerate(values):
                 arr = z3.Store(arr, z3.BitVecVal(i, 64), z3.FPVal(x, es) if kind == 'f' else z3.BitVecVal(int(x), bits))
+        elif expr is not None:
+            arr = expr          # initial contents given as a z3 array term (e.g. stops = starts + concrete lengths)
         else:
             arr = z3.Array(name, z3.BitVecSort(64), elem_sort(k))
         self.mem.o[obj] = ArrayObj(k, cap, arr, const, 'arg')
